@@ -11,7 +11,7 @@ PID = 'C12'
 WORK = os.path.join(vbuild.VERIF, 'build', 'work', PID)
 INF = float('inf')
 NV = 2                                   # x0, x1 in [-10, 10]; one linear constraint x0 + x1 <= 5
-SHAPES = ['lin', 'const', 'abs', 'quad']
+SHAPES = ['lin', 'const', 'abs', 'quad', 'prod']
 SENSES = ['min', 'max']
 POINTS = [(-3.0, 2.0), (-1.0, -2.0), (0.0, 1.0), (2.0, 0.0), (5.0, -4.0), (0.0, 0.0), (1.0, 1.0), (-7.0, 3.0)]
 
@@ -31,6 +31,8 @@ def objective(i, sense, shape):
     if shape == 'const': return (sense, ('n', (7 + i) * (-1 if i % 2 else 1)), {})                # 7, -8, 9 (both signs)
     if shape == 'abs':   return (sense, ('add', ('abs', x), ('n', i - 1.5)), {1: i + 3})        # |x0| + (i-1.5) + (i+3) x1 (negative constants too)
     if shape == 'quad':  return (sense, ('mul', ('pow2', x), ('n', i + 1)), {1: 2 * i + 1})    # (i+1) x0^2 + (2i+1) x1
+    if shape == 'prod':  # (x0 + i + 2) * (x1 - 1) + (i+1) x0: multiplying out leaves linear terms and a constant next to x0*x1
+        return (sense, ('mul', ('add', x, ('n', i + 2)), ('sub', ('v', 1), ('n', 1))), {0: i + 1})
     raise ValueError(shape)
 
 
@@ -102,13 +104,13 @@ def nl_binary(m):
 
 
 def files_for(tier):
-    per = list(itertools.product(SENSES, SHAPES))          # 8 (sense, shape) pairs
+    per = list(itertools.product(SENSES, SHAPES))          # 10 (sense, shape) pairs
     out = [[]]
     out += [[a] for a in per]
     out += [[a, b] for a in per for b in per]
     if tier == 'thorough':
         out += [[a, b, c] for a in per for b in per for c in per]
-    else:   # all 64 shape triples; senses alternate, starting sense from the parity of the triple's index
+    else:   # all 125 shape triples; senses alternate, starting sense from the parity of the triple's index
         for j, shp in enumerate(itertools.product(SHAPES, repeat=3)):
             ss = ('min', 'max', 'min') if j % 2 == 0 else ('max', 'min', 'max')
             out.append(list(zip(ss, shp)))
@@ -473,13 +475,13 @@ def _main(chk, tier, binary):
     chk.cov['evaluations'] = chk.cov.get('driver_runs', 0)
     vcheck.finalize_classes(chk)
     chk.set('rule', 'exhaustive: NL files with n in 0..3 objectives, objective i = {min,max} x {linear, constant only, '
-            '|x0|+i+linear, (i+1)x0^2+linear} (%s) x objno {unset, 0..n+1} x multiobj {0,1} x {objno=/multiobj= in '
+            '|x0|+i+linear, (i+1)x0^2+linear, (x0+i+2)(x1-1)+linear} (%s) x objno {unset, 0..n+1} x multiobj {0,1} x {objno=/multiobj= in '
             'vdriver_options, obj:no=/obj:multi= on the command line, objno=/multiobj= in an option file ending with / without a newline, "objno K" in mp_options, assignments followed by name=? queries with / without the -e switch} x {text, binary NL} x {quadratic objective accepted, '
             'not accepted}%s; one driver process per case. Oracle: reference selection function + value comparison of each '
             'delivered objective (following aux variables through AbsConstraint / quadratic constraints / fixed variables) '
-            'with the NL reference evaluator at %d points separating span{1,x0,x1,|x0|,x0^2}; `objno N code` line. '
+            'with the NL reference evaluator at %d points separating span{1,x0,x1,|x0|,x0^2,x0*x1}; `objno N code` line. '
             'A class is (n, objno class, multiobj, shape selected, script, outcome).'
-            % ('all combinations' if tier == 'thorough' else 'all combinations for n<=2; for n=3 all 64 shape triples with alternating senses',
+            % ('all combinations' if tier == 'thorough' else 'all combinations for n<=2; for n=3 all 125 shape triples with alternating senses',
                '' if tier == 'thorough' else ' (for n=3 route and format are paired: env+text, arg+binary)', len(POINTS)))
     chk.set('bounds', {'n': [0, 3], 'shapes': SHAPES, 'senses': SENSES, 'objno': 'unset, 0..n+1', 'multiobj': [0, 1],
                        'routes': ['env', 'arg', 'file', 'filenl', 'mpopts', 'query', 'query-e'], 'formats': ['text', 'binary'], 'scripts': sorted(SCRIPTS)})
